@@ -60,7 +60,7 @@ if keep:
     d = f'/verif/seeded/{keep}'
     os.makedirs(d, exist_ok=True)
     for f in os.listdir(src):
-        if os.path.isfile(os.path.join(src, f)):
+        if os.path.isfile(os.path.join(src, f)) and os.path.abspath(src) != os.path.abspath(d):
             shutil.copy(os.path.join(src, f), d)
     meta = {'breaks_property': keep.split('-')[0], 'demo_host_file': host, 'confirmed': {k: res.get(k) for k in
             ('demo_passes_on_clean_tree', 'patch_applies', 'existing_tests_pass_with_patch', 'demo_fails_with_patch')},
